@@ -57,9 +57,55 @@ def is_reject(st):
             and any(k.arg == 'value' and is_name(k.value, 'value') for k in c.keywords))
 
 
+def reject_fmt(st, where):
+    """the operands the message of a rejection formats, in order.  The f-string `msg=f'... {value} ...'` is evaluated BEFORE
+    raise_exception runs, and formatting an int of more than sys.get_int_max_str_digits() digits raises ValueError: what is
+    formatted is part of the observable behaviour.  FValue = the local `value`, FBound = self._value, FOther = operands whose
+    formatting cannot fail (a length, a type, a pattern text, a class)"""
+    c = st.value if isinstance(st, (ast.Expr, ast.Return)) else st.exc
+    msg = [k.value for k in c.keywords if k.arg == 'msg'][0]
+    if isinstance(msg, ast.Constant) and isinstance(msg.value, str):
+        return []
+    if not isinstance(msg, ast.JoinedStr):
+        bad(f'{where}: the message of the rejection is neither a string literal nor an f-string')
+    out = []
+    for part in msg.values:
+        if isinstance(part, ast.Constant):
+            continue
+        if not isinstance(part, ast.FormattedValue) or part.format_spec is not None or part.conversion not in (-1, 115):
+            bad(f'{where}: unsupported replacement field in the message of the rejection')
+        e = part.value
+        if is_name(e, 'value'):
+            out.append('FValue')
+        elif self_attr(e, '_value'):
+            out.append('FBound')
+        elif same(e, 'len(value)') or same(e, 'type(value)') or same(e, 'self._pattern.pattern') or same(e, 'self._enum') \
+                or self_attr(e, '_length'):
+            out.append('FOther')
+        else:
+            bad(f'{where}: the message of the rejection formats an expression the model does not know: {ast.unparse(e)}')
+    return out
+
+
 def only_reject(body, where):
+    """-> Coq list of what the rejection's message formats"""
     if len(body) != 1 or not is_reject(body[0]):
         bad(f'{where}: the rejecting branch is not a single self.raise_exception(msg=..., value=value)')
+    return coq_list(reject_fmt(body[0], where))
+
+
+def handler_fmt(tr, where):
+    """what the messages of the rejecting handlers of a try statement format (all rejecting handlers must agree)"""
+    fm = []
+    for h in tr.handlers:
+        for st in h.body:
+            if is_reject(st):
+                fm.append(reject_fmt(st, where))
+    if not fm:
+        return '[]'
+    if any(f != fm[0] for f in fm):
+        bad(f'{where}: the rejecting handlers format different operands')
+    return coq_list(fm[0])
 
 
 def exn_names(t, where):
@@ -160,10 +206,10 @@ def bound_family(rel, cls):
     src, tree, c, v = cls_and_validate(rel, cls)
     init_of(c, cls, ['value', 'include_boundary'], ['True'], ['self._value = value', 'self._include_boundary = include_boundary'])
     body = strip_doc(v.body)
-    dom = 'DomNone'
+    dom, dom_fmt = 'DomNone', '[]'
     if len(body) == 3 and isinstance(body[0], ast.If) and not body[0].orelse and isinstance(body[0].test, ast.UnaryOp):
         dom = isinstance_abc(body[0].test, cls)
-        only_reject(body[0].body, cls)
+        dom_fmt = only_reject(body[0].body, cls)
         body = body[1:]
     if len(body) != 2 or not isinstance(body[0], ast.If) or not same(body[1], 'return value'):
         bad(f'{cls}.validate: not `if ...: reject elif ...: reject` followed by `return value`')
@@ -191,7 +237,7 @@ def bound_family(rel, cls):
     tests = []
     node = body[0]
     while True:
-        only_reject(node.body, cls)
+        fmt = only_reject(node.body, cls)
         t = node.test
         if not (isinstance(t, ast.BoolOp) and isinstance(t.op, ast.And) and len(t.values) == 2):
             bad(f'{cls}.validate: test is not a conjunction of a comparison and the flag')
@@ -203,14 +249,14 @@ def bound_family(rel, cls):
             (op, neg), pol, flag_first = as_cmp(b), as_flag(a), True
         else:
             bad(f'{cls}.validate: test is not `[not] value <op> self._value and [not] self._include_boundary` (either order)')
-        tests.append('{| bt_op := %s; bt_neg := %s; bt_pol := %s; bt_flag_first := %s |}'
-                     % (op, coq_bool(neg), coq_bool(pol), coq_bool(flag_first)))
+        tests.append('{| bt_op := %s; bt_neg := %s; bt_pol := %s; bt_flag_first := %s; bt_fmt := %s |}'
+                     % (op, coq_bool(neg), coq_bool(pol), coq_bool(flag_first), fmt))
         if not node.orelse:
             break
         if len(node.orelse) != 1 or not isinstance(node.orelse[0], ast.If):
             bad(f'{cls}.validate: else branch is not an elif')
         node = node.orelse[0]
-    return provenance(rel, src, v), coq_list(tests), dom
+    return provenance(rel, src, v), coq_list(tests), dom, dom_fmt
 
 
 def length_family(rel, cls):
@@ -220,8 +266,8 @@ def length_family(rel, cls):
     if len(body) != 3 or not all(isinstance(s, ast.If) and not s.orelse for s in body[:2]) or not same(body[2], 'return value'):
         bad(f'{cls}.validate: not `if <domain>: reject; if <len test>: reject; return value`')
     dom = isinstance_abc(body[0].test, cls)
-    only_reject(body[0].body, cls)
-    only_reject(body[1].body, cls)
+    dom_fmt = only_reject(body[0].body, cls)
+    fmt = only_reject(body[1].body, cls)
     t = body[1].test
     if not (isinstance(t, ast.Compare) and len(t.ops) == 1 and type(t.ops[0]) in CMP):
         bad(f'{cls}.validate: length test is not a single comparison')
@@ -232,7 +278,7 @@ def length_family(rel, cls):
         op = FLIP[op]
     else:
         bad(f'{cls}.validate: length test is not between len(value) and self._length')
-    return provenance(rel, src, v), dom, op
+    return provenance(rel, src, v), dom, op, dom_fmt, fmt
 
 
 def not_empty():
@@ -242,14 +288,14 @@ def not_empty():
     body = strip_doc(v.body)
     if len(body) != 2 or not isinstance(body[0], ast.If):
         bad('NotEmpty.validate: top level shape changed')
-    only_reject([body[1]], 'NotEmpty (fall through)')
+    fmt_else = only_reject([body[1]], 'NotEmpty (fall through)')
     top = body[0]
     if not same(top.test, 'isinstance(value, str)'):
         bad('NotEmpty.validate: first branch is not isinstance(value, str)')
     sb = top.body
     if len(sb) != 2 or not isinstance(sb[0], ast.If) or sb[0].orelse or not isinstance(sb[1], ast.Return):
         bad('NotEmpty.validate: str branch shape changed')
-    only_reject(sb[0].body, 'NotEmpty (str)')
+    fmt_str = only_reject(sb[0].body, 'NotEmpty (str)')
     if same(sb[0].test, 'not value.strip()'):
         test_strips = True
     elif same(sb[0].test, 'not value') or same(sb[0].test, 'len(value) == 0'):
@@ -272,7 +318,7 @@ def not_empty():
     qb = el.body
     if len(qb) != 2 or not isinstance(qb[0], ast.If) or qb[0].orelse or not same(qb[1], 'return value'):
         bad('NotEmpty.validate: sequence branch shape changed')
-    only_reject(qb[0].body, 'NotEmpty (sequence)')
+    fmt_seq = only_reject(qb[0].body, 'NotEmpty (sequence)')
     t = qb[0].test
     if same(t, 'not value'):
         op, lit = 'CEq', 0
@@ -281,8 +327,9 @@ def not_empty():
         op, lit = CMP[type(t.ops[0])], t.comparators[0].value
     else:
         bad('NotEmpty.validate: unrecognised emptiness test for sequences')
-    rec = ('{| ne_test_strips := %s; ne_return := %s; ne_seq_dom := %s; ne_seq_op := %s; ne_seq_lit := %s |}'
-           % (coq_bool(test_strips), ret, dom, op, coq_Z(lit)))
+    rec = ('{| ne_test_strips := %s; ne_return := %s; ne_seq_dom := %s; ne_seq_op := %s; ne_seq_lit := %s; '
+           'ne_fmt_str := %s; ne_fmt_seq := %s; ne_fmt_else := %s |}'
+           % (coq_bool(test_strips), ret, dom, op, coq_Z(lit), fmt_str, fmt_seq, fmt_else))
     return provenance(rel, src, v), rec
 
 
@@ -325,10 +372,10 @@ def for_each():
             or [x.arg for x in i.args.args] != ['self', 'validators'] or i.args.defaults:
         bad('ForEach.__init__ changed')
     body = strip_doc(v.body)
-    dom = 'DomNone'
+    dom, dom_fmt = 'DomNone', '[]'
     if body and isinstance(body[0], ast.If) and not body[0].orelse:
         dom = isinstance_abc(body[0].test, 'ForEach')
-        only_reject(body[0].body, 'ForEach')
+        dom_fmt = only_reject(body[0].body, 'ForEach')
         body = body[1:]
     if len(body) != 3 or not same(body[0], 'results = []') or not isinstance(body[1], ast.For) or body[1].orelse \
             or not same(body[2], 'return results'):
@@ -353,7 +400,7 @@ def for_each():
         threads = False
     else:
         bad('ForEach.validate: inner loop body is not a call of validator.validate(item)')
-    rec = '{| fe_dom := %s; fe_threads := %s; fe_return_in_loop := %s |}' % (dom, coq_bool(threads), coq_bool(ret_in_loop))
+    rec = '{| fe_dom := %s; fe_threads := %s; fe_return_in_loop := %s; fe_dom_fmt := %s |}' % (dom, coq_bool(threads), coq_bool(ret_in_loop), dom_fmt)
     return provenance(rel, src, v), rec
 
 
@@ -369,7 +416,7 @@ def is_uuid():
     imp = [n for n in tree.body if isinstance(n, ast.ImportFrom) and n.module == 'uuid']
     if len(imp) != 1 or [(a.name, a.asname) for a in imp[0].names] != [('UUID', None)]:
         bad('IsUuid: UUID is not uuid.UUID')
-    return provenance(rel, src, v), handler_table(body[0], 'IsUuid')
+    return provenance(rel, src, v), handler_table(body[0], 'IsUuid'), handler_fmt(body[0], 'IsUuid')
 
 
 def is_enum():
@@ -394,7 +441,7 @@ def is_enum():
         guard = True       # a float that is no whole number raises ValueError before int() truncates it
     else:
         bad('IsEnum.validate: the IntEnum / Enum dispatch changed')
-    return provenance(rel, src, v), handler_table(body[0], 'IsEnum'), guard
+    return provenance(rel, src, v), handler_table(body[0], 'IsEnum'), guard, handler_fmt(body[0], 'IsEnum')
 
 
 def iso_format():
@@ -404,7 +451,7 @@ def iso_format():
     if len(body) != 2 or not isinstance(body[0], ast.Try) or len(body[0].body) != 1 \
             or not same(body[0].body[0], 'value = datetime.fromisoformat(value)') or not same(body[1], 'return value'):
         bad('DatetimeIsoFormat.validate: shape changed')
-    return provenance(rel, src, v), handler_table(body[0], 'DatetimeIsoFormat')
+    return provenance(rel, src, v), handler_table(body[0], 'DatetimeIsoFormat'), handler_fmt(body[0], 'DatetimeIsoFormat')
 
 
 def unix_timestamp():
@@ -415,13 +462,14 @@ def unix_timestamp():
             or not isinstance(body[2], ast.Try):
         bad('DateTimeUnixTimestamp.validate: shape changed')
     dom = isinstance_abc(body[0].test, 'DateTimeUnixTimestamp')
-    only_reject(body[0].body, 'DateTimeUnixTimestamp')
+    dom_fmt = only_reject(body[0].body, 'DateTimeUnixTimestamp')
     if len(body[1].body) != 1 or not same(body[1].body[0], 'seconds = float(value)'):
         bad('DateTimeUnixTimestamp.validate: first try body is not `seconds = float(value)`')
     if len(body[2].body) != 1 or not same(body[2].body[0], 'return datetime(year=1970, month=1, day=1) + timedelta(seconds=seconds)'):
         bad('DateTimeUnixTimestamp.validate: second try body changed')
     return provenance(rel, src, v), dom, handler_table(body[1], 'DateTimeUnixTimestamp/float'), \
-        handler_table(body[2], 'DateTimeUnixTimestamp/add')
+        handler_table(body[2], 'DateTimeUnixTimestamp/add'), dom_fmt, handler_fmt(body[1], 'DateTimeUnixTimestamp/float'), \
+        handler_fmt(body[2], 'DateTimeUnixTimestamp/add')
 
 
 MATCH_MODE = {'fullmatch': 'MFull', 'search': 'MSearch', 'match': 'MPrefix'}
@@ -439,7 +487,7 @@ def email():
     body = strip_doc(v.body)
     if len(body) != 2 or not isinstance(body[0], ast.If) or body[0].orelse or not same(body[1], 'return self._post_processor(value)'):
         bad('Email.validate: shape changed')
-    only_reject(body[0].body, 'Email')
+    fmt = only_reject(body[0].body, 'Email')
     t = body[0].test
     mode = None
     for fn in MATCH_MODE:
@@ -451,7 +499,7 @@ def email():
         rx = regex_to_coq(parse_regex(pattern))
     except RegexUnsupported as ex:
         bad(f'REGEX_EMAIL: {ex}')
-    return provenance(rel, src, v), mode, rx, pattern
+    return provenance(rel, src, v), mode, rx, pattern, fmt
 
 
 def match_pattern():
@@ -461,14 +509,14 @@ def match_pattern():
     body = strip_doc(v.body)
     if len(body) != 2 or not isinstance(body[0], ast.If) or body[0].orelse or not same(body[1], 'return value'):
         bad('MatchPattern.validate: shape changed')
-    only_reject(body[0].body, 'MatchPattern')
+    fmt = only_reject(body[0].body, 'MatchPattern')
     mode = None
     for fn in MATCH_MODE:
         if same(body[0].test, f'not self._pattern.{fn}(string=str(value))') or same(body[0].test, f'not self._pattern.{fn}(str(value))'):
             mode = MATCH_MODE[fn]
     if mode is None:
         bad('MatchPattern.validate: the test is not `not self._pattern.<search|match|fullmatch>(string=str(value))`')
-    return provenance(rel, src, v), mode
+    return provenance(rel, src, v), mode, fmt
 
 
 def abstract_validator():
@@ -748,15 +796,18 @@ def translate():
     line(f'Definition raise_exception_cls : exn := {cls}.')
     line(f'Definition h_validate_param : htable := {h}.')
     for cls_, rel in (('Min', 'min.py'), ('Max', 'max.py')):
-        p, tests, dom = bound_family(VDIR + rel, cls_)
+        p, tests, dom, dom_fmt = bound_family(VDIR + rel, cls_)
         prov(cls_.lower(), p)
         line(f'Definition {cls_.lower()}_tests : list btest := {tests}.')
         line(f'Definition {cls_.lower()}_dom : domkind := {dom}.')
+        line(f'Definition {cls_.lower()}_dom_fmt : list fmtarg := {dom_fmt}.')
     for cls_, rel, nm in (('MinLength', 'min_length.py', 'minlen'), ('MaxLength', 'max_length.py', 'maxlen')):
-        p, dom, op = length_family(VDIR + rel, cls_)
+        p, dom, op, dom_fmt, fmt = length_family(VDIR + rel, cls_)
         prov(nm, p)
         line(f'Definition {nm}_dom : domkind := {dom}.')
         line(f'Definition {nm}_op : cmpop := {op}.')
+        line(f'Definition {nm}_dom_fmt : list fmtarg := {dom_fmt}.')
+        line(f'Definition {nm}_fmt : list fmtarg := {fmt}.')
     p, rec = not_empty()
     prov('notempty', p)
     line(f'Definition notempty_cfg : notempty_shape := {rec}.')
@@ -766,28 +817,36 @@ def translate():
     p, rec = for_each()
     prov('foreach', p)
     line(f'Definition foreach_cfg : foreach_shape := {rec}.')
-    p, h = is_uuid()
+    p, h, fm = is_uuid()
     prov('is_uuid', p)
     line(f'Definition h_is_uuid : htable := {h}.')
-    p, h, guard = is_enum()
+    line(f'Definition h_is_uuid_fmt : list fmtarg := {fm}.')
+    p, h, guard, fm = is_enum()
     prov('is_enum', p)
     line(f'Definition h_is_enum : htable := {h}.')
+    line(f'Definition h_is_enum_fmt : list fmtarg := {fm}.')
     line(f'Definition enum_float_guard : bool := {coq_bool(guard)}.')
-    p, h = iso_format()
+    p, h, fm = iso_format()
     prov('iso', p)
     line(f'Definition h_iso : htable := {h}.')
-    p, dom, h1, h2 = unix_timestamp()
+    line(f'Definition h_iso_fmt : list fmtarg := {fm}.')
+    p, dom, h1, h2, dfm, fm1, fm2 = unix_timestamp()
     prov('unix', p)
     line(f'Definition unix_dom : domkind := {dom}.')
+    line(f'Definition unix_dom_fmt : list fmtarg := {dfm}.')
+    line(f'Definition h_unix_float_fmt : list fmtarg := {fm1}.')
+    line(f'Definition h_unix_add_fmt : list fmtarg := {fm2}.')
     line(f'Definition h_unix_float : htable := {h1}.')
     line(f'Definition h_unix_add : htable := {h2}.')
-    p, mode, rx, pattern = email()
+    p, mode, rx, pattern, fm = email()
     prov('email', p)
+    line(f'Definition email_fmt : list fmtarg := {fm}.')
     line(f'Definition regex_email_text : string := {coq_string(pattern)}.')
     line(f'Definition email_mode : matchmode := {mode}.')
     line(f'Definition regex_email : re := {rx}.')
-    p, mode = match_pattern()
+    p, mode, fm = match_pattern()
     prov('match_pattern', p)
+    line(f'Definition matchpattern_fmt : list fmtarg := {fm}.')
     line(f'Definition matchpattern_mode : matchmode := {mode}.')
     p, ops, trues, falses, bool_else, h, h_norm = convert_value()
     prov('convert_value', p)
